@@ -1,4 +1,5 @@
 import Rare.Model.C01Classify
+import Rare.Model.PipelineTrace
 import Rare.Proofs.Batcher
 /-!
 Helper lemmas for the classification theorems of C01 (`Props/C01.lean`): the reference lines carry their
@@ -190,6 +191,21 @@ theorem matched_key_nonempty {e : Extractor} {l : Line} {k : Bytes} (h : process
         · simp at h
   · simp at h
 
+theorem decide_clsOf_eq {e : Extractor} {all : List Line} (hnp : NoPanic e all) (c : Cls) :
+    ∀ l ∈ all, decide (clsOf e l = c) = outcomeIs e c l := by
+  intro l hl
+  obtain ⟨o, ho⟩ := hnp l hl
+  simp only [clsOf, outcomeIs, ho]
+  by_cases h : o.cls = c <;> simp [h]
+
+theorem filter_matched_eq {e : Extractor} {all : List Line} (hnp : NoPanic e all) :
+    all.filter (isMatched (clsOf e)) = all.filter (outcomeIs e .matched) :=
+  List.filter_congr (decide_clsOf_eq hnp .matched)
+
+theorem filter_ignored_eq {e : Extractor} {all : List Line} (hnp : NoPanic e all) :
+    all.filter (isIgnored (clsOf e)) = all.filter (outcomeIs e .ignored) :=
+  List.filter_congr (decide_clsOf_eq hnp .ignored)
+
 /-- Every line that is evaluated without a panic falls in exactly one class. -/
 theorem class_counts (e : Extractor) : ∀ (all : List Line), NoPanic e all →
     all.length = (all.filter (outcomeIs e .matched)).length + (all.filter (outcomeIs e .ignored)).length +
@@ -204,5 +220,26 @@ theorem class_counts (e : Extractor) : ∀ (all : List Line), NoPanic e all →
     have e1 : ∀ c, outcomeIs e c x = (o.cls == c) := fun c => by simp [outcomeIs, ho]
     simp only [List.length_cons, List.filter_cons, e1]
     cases o <;> simp [Outcome.cls] <;> omega
+
+theorem ok_of_toOption {α : Type} {x : Except String α} {a : α} (h : x.toOption = some a) : x = .ok a := by
+  cases x with
+  | error m => simp [Except.toOption] at h
+  | ok b => simp [Except.toOption] at h; rw [h]
+
+/-! ### a small accepted log under a configured classifier (non-vacuity examples of Props/C01) -/
+
+open Rare.TraceOrder Rare.PipelineTrace in
+/-- `exampleCfg` (one reader source `ab⏎x⏎`, batch size 1, one worker) with the classifier of
+    `exampleExtractor` (ignore `{eq {line} 1}`): line 1 is ignored, line 2 (`x`) does not match. -/
+def exampleCfg2 : PipelineTrace.Cfg := { PipelineTrace.exampleCfg with cls := clsOf exampleExtractor }
+
+open Rare.TraceOrder Rare.PipelineTrace in
+/-- the log of such a run: no match batch is ever sent -/
+def exampleLog2 : List Ev :=
+  let mk (g : Nat) (k : String) (src a b : Nat) : Ev := ⟨g, k, src, a, b, []⟩
+  [mk 0 "so" 0 0 0, mk 0 "sb" 0 1 1, mk 0 "fl" 0 1 1, mk 1 "ws" noSrc 0 0, mk 0 "st" 0 1 1, mk 0 "fl" 0 2 1,
+   mk 1 "wr" 0 1 1, mk 1 "li" 0 1 0, mk 0 "st" 0 2 1, mk 0 "sn" 0 0 0, mk 0 "cc" noSrc 0 0,
+   mk 1 "wr" 0 2 1, mk 1 "lu" 0 2 0, mk 1 "wx" noSrc 0 0, mk 3 "rc" noSrc 0 0,
+   mk 2 "cd" noSrc 0 0]
 
 end Rare.C01
